@@ -653,7 +653,14 @@ impl<'a> Checker<'a> {
                         expected = outcome_brief(&exp.events, &exp.item);
                         let why = classify(exp, got, spec, &locs, prog, &mut labels);
                         notes.push(why);
-                        if since_failure_before {
+                        // A divergence that is purely about line/column arithmetic or about peek()
+                        // says nothing about which rule set is active or where recovery resumed:
+                        // it is owned by C06 / C10 / C07 only and not attributed to C03 / C08.
+                        let cosmetic = (labels.contains(&Label::Loc) || labels.contains(&Label::Peek))
+                            && labels
+                                .iter()
+                                .all(|l| matches!(l, Label::Loc | Label::Peek | Label::ErrorLocation));
+                        if since_failure_before && !cosmetic {
                             push(&mut labels, Label::RecoveryStream);
                             // where the lexer resumed
                             let first_start = got
@@ -678,7 +685,15 @@ impl<'a> Checker<'a> {
                                 push(&mut labels, Label::RecoveryPosition);
                             }
                         }
-                        if fresh_before {
+                        // C03 owns a divergence right after a rule-set entry only if it is about
+                        // WHICH rule fired / whether anything matched (not spans, locations, payloads)
+                        let which_rule = labels.iter().any(|l| {
+                            matches!(
+                                l,
+                                Label::ActionSequence | Label::ErrorDecision | Label::EofProtocol | Label::Panic | Label::NoProgress
+                            )
+                        });
+                        if fresh_before && which_rule {
                             push(&mut labels, Label::SwitchEntry);
                         }
                     } else {
